@@ -14,6 +14,7 @@ import (
 	"context"
 	"fmt"
 	"reflect"
+	"regexp"
 	"strings"
 
 	"gorm.io/gorm"
@@ -365,10 +366,13 @@ func fmtStmt(db *gorm.DB) string {
 		s += " in-transaction"
 	}
 	if db.Error != nil {
-		s += " ERR=" + db.Error.Error()
+		// (an error text may print the address of a value: not part of the outcome)
+		s += " ERR=" + addrRe06.ReplaceAllString(db.Error.Error(), "0xADDR")
 	}
 	return s
 }
+
+var addrRe06 = regexp.MustCompile(`0x[0-9a-f]{6,}`)
 
 // replay builds the path alone on a fresh handle and executes the finisher.
 func replay06(path []pel, finSeed uint64) (string, string) {
